@@ -2,11 +2,12 @@ import SleapVerif.Model.Proto
 import SleapVerif.Model.BottomUp
 /-! Driver for C03.
 
-`sample <nNodes> <edges: n (u v)*> <cmsStride> <pafStride> <ts: n t*> <ratio> <weight> <minLine>
+`sample <fixed> <nNodes> <edges: n (u v)*> <cmsStride> <pafStride> <ts: n t*> <ratio> <weight> <minLine>
         <minPeaks: i <int> | f <rat>> <inputScale> <eff> <h> <w> <c> <paf: h*w*c values, (h,w,c) row-major>
         <peaks: n (gx gy val ch)*> <per edge: r | m n (i j)*>`
   → `<ok | raise err> | cand n (e s d score)* | fsubs (chx chy (row col)^nT)* | rsubs ((row col mrow mcol)^nT)*
-     | conn n (sn si dn di score)* | inst n ((idx|-1)^nNodes score)* | coords (x y | nan nan)*`
+     | conn n (sn si dn di score)* | inst n ((idx|-1)^nNodes score)* | coords (x y | nan nan)* | vals (v | nan)*`
+  `<fixed>` = 1: the matching of /repo HEAD (after `fixes/C08-infeasible.patch`), 0: the pinned one;
   `fsubs`/scores/grouping: the model at `Float` with the given `ts` (float32 `linspace` values);
   `rsubs`/`coords`: the same definitions at `Rat` with the exact `linspace` (margin = distance of the
   rounding decision of that coordinate from a tie, `|2·frac − 1|`).
@@ -59,6 +60,7 @@ def optNatStr : Option Nat → String
 
 def handleSample (rest : List String) : String :=
   let p : P _ := do
+    let fixed ← bool
     let nNodes ← nat
     let edges ← pEdges
     let cs ← nat; let ps ← nat
@@ -70,10 +72,10 @@ def handleSample (rest : List String) : String :=
     let data ← rep (h * w * c) rat
     let peaks ← listOf (do let gx ← rat; let gy ← rat; let v ← rat; let ch ← nat; pure (gx, gy, v, ch))
     let ans ← rep edges.length pLsaAns
-    pure (nNodes, edges, cs, ps, ts, ratio, weight, minLine, mp, inputScale, eff, h, w, c, data, peaks, ans)
+    pure (fixed, nNodes, edges, cs, ps, ts, ratio, weight, minLine, mp, inputScale, eff, h, w, c, data, peaks, ans)
   match runP p rest with
   | none => "bad-op"
-  | some (nNodes, edges, cs, ps, ts, ratio, weight, minLine, mp, inputScale, eff, h, w, c, data, peaks, ans) =>
+  | some (fixed, nNodes, edges, cs, ps, ts, ratio, weight, minLine, mp, inputScale, eff, h, w, c, data, peaks, ans) =>
     let PF : BottomUp.Params Float :=
       { nNodes := nNodes, edges := edges, cmsStride := cs, pafStride := ps, ts := ts.map toF,
         maxLenRatio := toF ratio, distWeight := toF weight, minLine := toF minLine, minPeaks := mp,
@@ -98,11 +100,13 @@ def handleSample (rest : List String) : String :=
     let fsubsS := "fsubs " ++ " ".intercalate (candsF.map fun cd => chStr cd.subs ++ " " ++ subsStr cd.subs)
     -- scipy as a function: the recorded answer of edge k for the model's own cost matrix of edge k
     let chs := peaksF.map (·.ch)
-    let tabs := scoreTables chs edges candsF
-    let cms : List (Mat (Option Float)) := edges.zipIdx.map fun x => costMatrix chs x.1 (tabs.getD x.2 [])
+    let tabs := scoreTables Float.isFinite chs edges candsF
+    let cms : List (Mat (Option Float)) := edges.zipIdx.map fun x =>
+      let C := costMatrix chs x.1 (tabs.getD x.2 [])
+      if fixed then fillInvalid C else C
     let table := cms.zip ans
     let lsa : Lsa Float := fun C => ((table.find? (fun kv => kv.1 == C)).map (·.2)).getD none
-    match forwardSample flF castF Float.sqrt PF pafF peaksF lsa with
+    match forwardSample fixed Float.isFinite flF castF Float.sqrt PF pafF peaksF lsa with
     | .error e => s!"raise {errStr e} | {candS} | {fsubsS} | {rsubsS}"
     | .ok o =>
       let connS := s!"conn {o.conns.length} " ++ " ".intercalate
@@ -113,7 +117,9 @@ def handleSample (rest : List String) : String :=
         " ".intercalate ((rowCoords castQ PQ eff peaksQ row).map fun
           | none => "nan nan"
           | some (x, y) => ratStr x ++ " " ++ ratStr y))
-      s!"ok | {candS} | {fsubsS} | {rsubsS} | {connS} | {instS} | {coordS}"
+      let valS := "vals " ++ " ".intercalate (o.rows.map fun row =>
+        " ".intercalate ((rowVals peaksQ row).map oratStr))
+      s!"ok | {candS} | {fsubsS} | {rsubsS} | {connS} | {instS} | {coordS} | {valS}"
 
 def handleSubs (rest : List String) : String :=
   let p : P _ := do
